@@ -201,7 +201,7 @@ pub fn short_bytes(full: bool) -> Vec<Vec<u8>> {
     } else {
         for a in BYTE_ALPHABET_40 {
             for b in BYTE_ALPHABET_40 {
-                v.push(vec![a, b]);
+                v.push(vec![*a, *b]);
             }
         }
     }
